@@ -1,41 +1,37 @@
 #!/usr/bin/env python3
 """try_seeded.py <patch.diff> <ID> [<ID> ...]
-Applies a seeded change to /repo, runs the quick check of each given property, prints the verdict lines and
-ALWAYS restores /repo (git checkout -- . ; git clean of untracked demo files is NOT done: patches must not add files).
-Evidence files written during these runs are restored afterwards (evidence must come from the clean tree)."""
+Runs the quick checks of the given properties against a seeded change WITHOUT touching /repo or /verif:
+a scratch git worktree of /repo gets the patch, a scratch copy of /verif (VERIF_REPO pointing at that
+worktree) runs the checks.  Both are removed afterwards.  Prints one line per property with the verdict
+lines of the check.  (The documented manual route - git -C /repo apply; bin/check; git -C /repo checkout -- .
+- gives the same verdicts; this tool exists so that several things can run at once.)"""
 import subprocess, sys, os, shutil, tempfile, time
-REPO, VERIF = "/repo", "/verif"
 def sh(cmd, **kw):
     return subprocess.run(cmd, shell=True, stdout=subprocess.PIPE, stderr=subprocess.STDOUT, **kw)
 def main():
     patch = os.path.abspath(sys.argv[1]); ids = sys.argv[2:]
-    st = sh("git -C /repo status --porcelain").stdout.decode().strip()
-    if st:
-        print("REPO NOT CLEAN:\n" + st); return 2
-    ev = tempfile.mkdtemp(prefix="ev.", dir="/root")
-    if os.path.isdir(VERIF + "/evidence"):
-        shutil.copytree(VERIF + "/evidence", ev + "/evidence")
-    r = sh("git -C /repo apply --whitespace=nowarn %s" % patch)
-    if r.returncode != 0:
-        print("PATCH DOES NOT APPLY:", r.stdout.decode()[-500:]); shutil.rmtree(ev); return 2
-    results = {}
+    base = tempfile.mkdtemp(prefix="seedrun.", dir="/tmp")
+    repo, verif = base + "/repo", base + "/verif"
     try:
+        r = sh("git -C /repo worktree add -q --detach %s HEAD" % repo)
+        if r.returncode != 0:
+            print("cannot create worktree:", r.stdout.decode()[-300:]); return 2
+        r = sh("git -C %s apply --whitespace=nowarn %s" % (repo, patch))
+        if r.returncode != 0:
+            print("PATCH DOES NOT APPLY:", r.stdout.decode()[-500:]); return 2
+        sh("rsync -a --exclude .work --exclude replays --exclude .git --exclude evidence /verif/ %s/" % verif)
+        env = dict(os.environ, VERIF_REPO=repo)
         for pid in ids:
             t0 = time.time()
-            r = sh("cd /verif && bin/check %s --tier quick" % pid, timeout=3000)
+            r = sh("cd %s && bin/check %s --tier quick" % (verif, pid), timeout=3600, env=env)
             out = r.stdout.decode()
-            lines = [l for l in out.splitlines() if l.startswith(("VIOLATION", "KNOWN-FINDING"))]
-            results[pid] = (r.returncode, lines)
+            lines = [l.replace(verif, "<scratch>") for l in out.splitlines() if l.startswith(("VIOLATION", "KNOWN-FINDING"))]
             print("%s rc=%d %.0fs %s" % (pid, r.returncode, time.time() - t0, " | ".join(l[:160] for l in lines)))
+            sys.stdout.flush()
     finally:
-        sh("git -C /repo checkout -- .")
-        if os.path.isdir(ev + "/evidence"):
-            shutil.rmtree(VERIF + "/evidence", ignore_errors=True)
-            shutil.copytree(ev + "/evidence", VERIF + "/evidence")
-        shutil.rmtree(ev, ignore_errors=True)
-        st = sh("git -C /repo status --porcelain").stdout.decode().strip()
-        if st:
-            print("WARNING: /repo not clean after restore:\n" + st)
+        sh("git -C /repo worktree remove --force %s" % repo)
+        shutil.rmtree(base, ignore_errors=True)
+        sh("git -C /repo worktree prune")
     return 0
 if __name__ == "__main__":
     sys.exit(main())
